@@ -994,6 +994,31 @@ def tag_emit(F):
             r.ob(g, {"add_injection guarded by pull_side_effects": g})
             if not g:
                 r.violate("%s | unguarded add_injection" % fn["path"], F.loc(fn, node), "side-effect record is produced even when side effects were not requested")
+    # records that carry an initialiser / offset expression are built after that expression's ids were remapped: the report
+    # and the encoded module must name the same globals and functions
+    fixes_by_root = {}
+    for lp in walk(fn["body"]):
+        is_for = lp.get("k") == "Match" and lp.get("src") == "ForLoopDesugar" and any(x.get("k") == "MethodCall" and x["method"] == "fix_id_mapping" for x in walk(lp["arms"][0]["body"]))
+        is_each = lp.get("k") == "MethodCall" and lp["method"] == "for_each" and any(x.get("k") == "MethodCall" and x["method"] == "fix_id_mapping" for x in walk(lp.get("args") or []))
+        if not (is_for or is_each):
+            continue
+        src_ = lp["scrut"] if is_for else lp["recv"]
+        for x in walk(src_):
+            if x.get("k") == "Field" and x["name"] == "exprs":
+                b_ = peel(x["base"])
+                while isinstance(b_, dict) and b_.get("k") in ("Field", "Unary", "AddrOf"):
+                    b_ = peel(b_.get("base") or b_.get("a"))
+                if isinstance(b_, dict) and b_.get("k") == "Path" and b_.get("res", {}).get("r") == "local":
+                    fixes_by_root.setdefault(b_["res"]["hid"], []).append(lp)
+    for node in walk(fn["body"]):
+        if node.get("k") == "Call" and (node.get("callee") or "").endswith("::add_injection"):
+            used = {x["res"]["hid"] for a_ in node["args"] for x in walk(a_) if x.get("k") == "Path" and x.get("res", {}).get("hid") in fixes_by_root}
+            for h_ in used:
+                okf = all(sp_before(lp, node) for lp in fixes_by_root[h_])
+                r.ob(okf, {"record with an init/offset expression built after its ids were remapped": okf})
+                if not okf:
+                    r.violate("%s | record-before-remap" % fn["path"], F.loc(fn, node),
+                              "a side-effect record copies an initialiser/offset expression before InitInstr::fix_id_mapping has run on it: the report names pre-encoding global/function ids while the encoded module uses the re-indexed ones")
     # probe bodies collected after remap: add_opcode_injections call follows the instruction loop in the same block
     ok = False
     for blk in walk(fn["body"]):
